@@ -103,9 +103,10 @@ theorem exists6 (l : List α) (h : 6 ≤ l.length) : ∃ a b c d e f r, l = a ::
   | a :: b :: c :: d :: e :: f :: r, _ => exact ⟨a, b, c, d, e, f, r, rfl⟩
 
 /-- `PES.unpack` accepts (given that the packet decoder accepted the buffer and produced payload `pl`)
-    exactly when the payload holds at least 9 bytes and starts with the start-code prefix 00 00 01 -/
+    exactly when the payload holds the 6-byte PES prefix and starts with the start-code prefix 00 00 01
+    (since the `fix:` commit da005f6 fewer than 3 bytes after the prefix are decoded as header-less data) -/
 theorem PES_prefix_iff (t : PES) (buf : Bytes) (p : Pkt) (hp : Pkt.unpack t.pkt buf = (p, .ok ())) :
-    (PES.unpack t buf).2 = .ok () ↔ 9 ≤ p.payload.length ∧ p.payload.take 3 = [0, 0, 1] := by
+    (PES.unpack t buf).2 = .ok () ↔ 6 ≤ p.payload.length ∧ p.payload.take 3 = [0, 0, 1] := by
   unfold PES.unpack
   rw [hp]
   simp only
@@ -129,9 +130,11 @@ theorem PES_prefix_iff (t : PES) (buf : Bytes) (p : Pkt) (hp : Pkt.unpack t.pkt 
     · have : a.toNat = 0 ∧ b.toNat = 0 ∧ c.toNat = 1 := by omega
       simp only [hpre, if_true, this, and_true]
       by_cases h3 : 3 ≤ r.length
-      · simp only [h3, if_true]
+      · have h9 : ¬ (r.length + 1 + 1 + 1 + 1 + 1 + 1 < 9) := by omega
+        simp only [h9, h3, if_true, if_false]
         split <;> simp
-      · simp [h3]
+      · have h9 : r.length + 1 + 1 + 1 + 1 + 1 + 1 < 9 := by omega
+        simp [h9]
     · have : ¬ (a.toNat = 0 ∧ b.toNat = 0 ∧ c.toNat = 1) := by omega
       simp [hpre, this]
   · have : ¬ (0 + Acra.Gen.PES.PES_unpack_fmt0.size ≤ p.payload.length) := by
@@ -197,10 +200,10 @@ theorem STANAG_accepts_iff (t : STANAG) (buf : Bytes) (p : PES) (hp : PES.unpack
 /-! ### review additions: unconditional statements (no `hp` hypothesis), checksum against the Spec, witnesses -/
 
 /-- `PES.unpack`, every buffer and prior state: accepted exactly when the transport packet is accepted and its
-    payload holds at least 9 bytes starting with 00 00 01 -/
+    payload holds at least the 6-byte prefix, starting with 00 00 01 -/
 theorem PES_accepts_iff (t : PES) (buf : Bytes) :
     (PES.unpack t buf).2 = .ok () ↔
-      (Pkt.unpack t.pkt buf).2 = .ok () ∧ 9 ≤ (Pkt.unpack t.pkt buf).1.payload.length ∧
+      (Pkt.unpack t.pkt buf).2 = .ok () ∧ 6 ≤ (Pkt.unpack t.pkt buf).1.payload.length ∧
       (Pkt.unpack t.pkt buf).1.payload.take 3 = [0, 0, 1] := by
   cases hu : Pkt.unpack t.pkt buf with
   | mk p r =>
@@ -236,10 +239,12 @@ example : (Pkt.unpack Pkt.fresh ([0x46, 0x41, 0x04, 0x10] ++ [1,2,3])).2 = .erro
 example : (Pkt.unpack Pkt.fresh [0x47, 0x41, 0x04]).2 = .error .struct := by rfl
 example : (Pkt.unpack Pkt.fresh [0x47, 0x41, 0x04, 0x30]).2 ≠ .ok () := by intro h; cases h
 example : (Pkt.unpack Pkt.fresh [0x47, 0x41, 0x04, 0x30, 1, 0, 9, 9]).2 = .ok () ∧ (Pkt.unpack Pkt.fresh [0x47, 0x41, 0x04, 0x30, 1, 0, 9, 9]).1.payload = [9, 9] := ⟨rfl, rfl⟩
-/-- PES prefix: 00 00 01 and 9 bytes accepted, PES data returned whole; 00 00 02 rejected; 8 bytes rejected -/
+/-- PES prefix: 00 00 01 and 9 bytes accepted, PES data returned whole; 00 00 02 rejected; 8 bytes accepted as
+    header-less data (2 bytes); 5 bytes (prefix incomplete) rejected -/
 example : (PES.unpack PES.fresh (tsHdr ++ [0,0,1,0xE0,0,0, 1,2,3])).2 = .ok () ∧ (PES.unpack PES.fresh (tsHdr ++ [0,0,1,0xE0,0,0, 1,2,3])).1.pesdata = [1,2,3] := ⟨rfl, rfl⟩
 example : (PES.unpack PES.fresh (tsHdr ++ [0,0,2,0xE0,0,0, 1,2,3])).2 = .error .generic := by rfl
-example : (PES.unpack PES.fresh (tsHdr ++ [0,0,1,0xE0,0,0, 1,2])).2 ≠ .ok () := by intro h; cases h
+example : (PES.unpack PES.fresh (tsHdr ++ [0,0,1,0xE0,0,0, 1,2])).2 = .ok () ∧ (PES.unpack PES.fresh (tsHdr ++ [0,0,1,0xE0,0,0, 1,2])).1.pesdata = [1,2] := ⟨rfl, rfl⟩
+example : (PES.unpack PES.fresh (tsHdr ++ [0,0,1,0xE0,0])).2 ≠ .ok () := by intro h; cases h
 /-- STANAG: accepted; then one clause broken at a time — PID 0x105, key byte, data tag 3, tag length 7, checksum byte,
     a protected data byte (checksum no longer matches), 35 bytes of data: each rejected -/
 example : (STANAG.unpack STANAG.fresh (tsHdr ++ [0,0,1,0xFC,0,0] ++ stanagData)).2 = .ok () := by rfl
